@@ -18,7 +18,6 @@ import (
 	"goatverif/wire"
 )
 
-
 // C06: every emitted envelope sequence conforms to the documented wire protocol.
 
 type protoViolation struct {
@@ -56,11 +55,11 @@ func checkWire(log []*wire.Rec, returned, unaryReturned map[string]uint64, close
 		bodies                  int
 	}
 	type idState struct {
-		unary   bool
-		tag     string
-		c2s     dirState
-		s2c     dirState
-		c2sBody bool // a C->S body was seen (for server resets)
+		unary       bool
+		tag         string
+		c2s         dirState
+		s2c         dirState
+		c2sBody     bool // a C->S body was seen (for server resets)
 		interesting bool
 	}
 	ids := map[uint64]*idState{}
@@ -248,6 +247,7 @@ func c06List(tier string, seed int64) []c06Case {
 	add("directed-unary-deadline-in-handler", 1000, tierN(tier, 12, 120))
 	add("directed-cancel-during-open-write", 1000, tierN(tier, 12, 120))
 	add("directed-reset-after-handler-returned", 1000, tierN(tier, 12, 120))
+	add("directed-open-on-ended-context", 1000, tierN(tier, 16, 160))
 	return out
 }
 
@@ -431,6 +431,51 @@ func c06CancelDuringOpen(tier string, seed int64, idx int) *core.Result {
 	return res
 }
 
+// c06OpenOnEndedContext: a streaming (or unary) call is started on a context that is already
+// cancelled or past its deadline. Whether or not the transport still takes the opening envelope,
+// the client's history for that id must be a legal one - in particular nothing at all, or an open
+// followed by a reset, never a reset for an id that was not opened.
+func c06OpenOnEndedContext(tier string, seed int64, idx int) *core.Result {
+	res := &core.Result{Verdict: core.Held}
+	h := bed.NewHooks()
+	h.Install()
+	b := bed.New(bed.Opts{Cap: []int{0, 0, 2}[idx%3], Serialise: idx%2 == 0})
+	b.Links[0].Eager = idx%4 == 3
+	m := svc.NewManualCtx(context.Background())
+	if idx%2 == 0 {
+		m.Cancel()
+	} else {
+		m.Fire()
+	}
+	done := make(chan struct{})
+	go func() {
+		defer close(done)
+		if idx%5 == 4 {
+			svc.Invoke(m, b.Conns[0], fmt.Sprintf("oec%d", idx), []byte("q"))
+			return
+		}
+		kind := []string{"bidi", "client", "server"}[idx%3]
+		s, err := svc.Open(m, b.Conns[0], kind, fmt.Sprintf("oec%d", idx), []byte("q"))
+		if err == nil && s != nil {
+			s.Recv()
+		}
+	}()
+	settle(tier, func() bool {
+		select {
+		case <-done:
+			return true
+		default:
+			return false
+		}
+	})
+	quiet(tier)
+	res.Stat("open_on_ended_context", 1)
+	// a healthy call afterwards keeps the history honest (the connection is alive)
+	svc.Invoke(context.Background(), b.Conns[0], fmt.Sprintf("oec-after%d", idx), []byte("x"))
+	finish(tier, b, h, res)
+	return res
+}
+
 // c06ResetAfterReturn: the handler sends a message and returns at once; its trailer is held in the
 // server's writer while the caller cancels, so the client's reset reaches the server after the
 // stream has been closed and unregistered there. The server has said its last word for the id.
@@ -526,6 +571,8 @@ func c06Run(tier string, seed int64, idx int) *core.Result {
 		sub = c06CancelDuringOpen(tier, seed, c.Index)
 	case "directed-reset-after-handler-returned":
 		sub = c06ResetAfterReturn(tier, seed, c.Index)
+	case "directed-open-on-ended-context":
+		sub = c06OpenOnEndedContext(tier, seed, c.Index)
 	case "C01":
 		sub = c01Run(tier, seed, c.Index)
 	case "C02":
@@ -547,7 +594,7 @@ func c06Run(tier string, seed int64, idx int) *core.Result {
 	}
 	// each check reports only its own property: what the workload's own oracle found is not C06's business
 	for k, v := range sub.Stats {
-		if k == "send_parked_across_cancel" || k == "unary_deadline_in_handler" || k == "cancel_during_open_write" || k == "reset_after_handler_returned" {
+		if k == "send_parked_across_cancel" || k == "unary_deadline_in_handler" || k == "cancel_during_open_write" || k == "reset_after_handler_returned" || k == "open_on_ended_context" {
 			res.Stat(k, v)
 		}
 	}
@@ -590,11 +637,11 @@ func init() {
 	core.Register(&core.Prop{
 		ID:    "C06",
 		Level: "exploration",
-		Rule:  "trace checking: a fixed-seed sample of the C01, C02, C03 (matrix and race families), C07 and C11 case lists (quick ~850 cases, thorough ~11 500) is re-run and every client link's tap log is projected per (id, direction) and fed to the protocol automata (stream open / body* / trailer+status / resets; unary exactly one request and one response; constant and swapped header fields; metadata only on the first response; server emits only for received ids; server reset only after a body and never before the trailer; end-of-history rules: stream handler returned, no client reset, connection alive => trailer; unary handler returned, connection alive => one response; a client reset is never the first envelope of an id), plus directed families: a send parked across a cancel, a unary deadline expiring inside the handler, a cancel while the opening envelope is inside the transport Write, a client reset reaching the server after the handler returned (trailer held in the writer). evaluations = workload cases; non-trivial = the case's wire history contains a reset or a non-OK trailer; distinct = distinct (workload, index).",
+		Rule:  "trace checking: a fixed-seed sample of the C01, C02, C03 (matrix and race families), C07 and C11 case lists (quick ~850 cases, thorough ~11 500) is re-run and every client link's tap log is projected per (id, direction) and fed to the protocol automata (stream open / body* / trailer+status / resets; unary exactly one request and one response; constant and swapped header fields; metadata only on the first response; server emits only for received ids; server reset only after a body and never before the trailer; end-of-history rules: stream handler returned, no client reset, connection alive => trailer; unary handler returned, connection alive => one response; a client reset is never the first envelope of an id), plus directed families: a send parked across a cancel, a unary deadline expiring inside the handler, a cancel while the opening envelope is inside the transport Write, a client reset reaching the server after the handler returned (trailer held in the writer), a call started on a context that has already ended. evaluations = workload cases; non-trivial = the case's wire history contains a reset or a non-OK trailer; distinct = distinct (workload, index).",
 		Plan:  func(tier string, seed int64) int { return len(c06List(tier, seed)) },
 		Run:   c06Run,
 		RequiredStats: func(string) []string {
-			return []string{"projections", "projections_with_reset_or_error", "handler_returns_checked", "envelopes", "send_parked_across_cancel", "unary_deadline_in_handler", "cancel_during_open_write", "reset_after_handler_returned"}
+			return []string{"projections", "projections_with_reset_or_error", "handler_returns_checked", "envelopes", "send_parked_across_cancel", "unary_deadline_in_handler", "cancel_during_open_write", "reset_after_handler_returned", "open_on_ended_context"}
 		},
 		Assumptions: []string{"the automata are transcribed from README.md and the property statement", "only client-side links are checked (one client = one id space)"},
 	})
